@@ -49,6 +49,9 @@ func addTags(c *api.Context, collection b6.Collection[b6.FeatureID, b6.Tag]) (in
 
 // Remove the tag with the given key from the given feature.
 func removeTag(c *api.Context, id b6.Identifiable, key string) (ingest.Change, error) {
+	if err := requireIdentifiable("remove-tag", id); err != nil {
+		return nil, err
+	}
 	tags := make(ingest.RemoveTags, 1)
 	tags[0] = ingest.RemoveTag{ID: id.FeatureID(), Key: key}
 	return tags, nil
